@@ -206,9 +206,41 @@ def r4_slices(ctx, F):
               "equals_slice zips without comparing lengths: a sequence equals its own prefix", fn=f)
 
 
+def r5_sorted(ctx, F):
+    """`sorted` is stable: it uses the stable slice sort with the direction inside the comparator, and does not
+    reverse the sorted vector afterwards (which would reverse the order of equal keys)"""
+    from kern import natives
+    ns = [n for n in natives(F) if n.name == "sorted" and n.impl is not None]
+    if len(ns) != 1:
+        ctx.bad("C09.R5", "sorted:anchor", "anchor-missing: the `sorted` native (%d found)" % len(ns))
+        return
+    f = ns[0].impl
+    bodies = [f] + F.closures_of(f)
+    sorts = [c for g in bodies for c in g.calls if re.search(r"slice::<impl \[T\]>::sort\w*$", c.name)]
+    stable = [c for c in sorts if re.search(r"::(sort|sort_by|sort_by_key|sort_by_cached_key)$", c.name)]
+    ctx.check(bool(sorts) and len(stable) == len(sorts), "C09.R5", "sorted:stable-sort",
+              "sorted() uses the stable slice sort",
+              "sorted() uses an unstable sort (%s): elements with equal keys can change their relative order"
+              % sorted({c.name.split("::")[-1] for c in sorts if c not in stable}), fn=f)
+    revs = [c for c in f.calls if re.search(r"slice::<impl \[T\]>::reverse$", c.name) and c.bb not in f.cleanup
+            and sorts and any(c.bb in f.after(s_.bb) for s_ in sorts if s_.fn is f)]
+    ctx.check(not revs, "C09.R5", "sorted:no-reverse-after-sort",
+              "the sorted vector is not reversed afterwards (the direction is part of the comparison)",
+              "sorted() reverses the vector after a stable ascending sort: with reverse=True elements whose keys "
+              "compare equal come out in reversed order (the sort is no longer stable)", fn=f,
+              line=revs[0].line if revs else None)
+    # the direction is applied inside the comparator
+    cmpc = [g for g in F.closures_of(f) if any(re.search(r"cmp::Ordering::reverse$", c.name) or re.search(
+        r"Ordering::reverse", c.full) for c in g.calls) or any("cmp::Ordering::reverse" in st.text() for st in g.stmts)]
+    ctx.check(bool(cmpc), "C09.R5", "sorted:direction-in-comparator",
+              "reverse=True is implemented by reversing the comparison result",
+              "sorted() no longer reverses the comparison inside the comparator", fn=f)
+
+
 def run(ctx):
     F = ctx.facts("core")
     r4_slices(ctx, F)
+    r5_sorted(ctx, F)
     r1_numeric(ctx, F)
     r2_unchecked(ctx, F)
     r3_siblings(ctx, F)
